@@ -76,14 +76,14 @@ PROPS = {
         "in the render-wide context, and macro calls receive a copy of the scope and merge globals back.",
         [K("k3::S-Define"), K("k3::S-Define-clauses"), K("k3::S-Repeat"), K("k3::S-UseExternal"), K("k3::S-MacroUseInternal"),
          K("k3::S-Repeat-reserved"), K("k3::S-Define-reserved"), K("k3::S-Define-econtext"),
-         K("k3::S-OnError-Define"), K("k3::S-GlobalInLocal"), FRESH] +
+         K("k3::S-OnError-Define"), K("k3::S-GlobalInLocal"), K("k3::S-LambdaScope"), FRESH] +
         [K("utils.py::Scope." + m) for m in ("get", "__getitem__", "__contains__", "get_name", "set_global", "copy")],
         ["utils.Scope.__iter__ / keys / items (generators over two dict layers)",
          ]),
     "C06": k3prop(
         "Emitted code for ${...} in text is proved to append the literal parts unchanged with $$ "
         "un-doubled, each expression converted once; with meta:interpolation off nothing is evaluated.",
-        S_INTERP + S_COMMENT + [U('pyvc.frames', 'instance_state', 'instance_state'),
+        S_INTERP + S_COMMENT + K2Q + [U('pyvc.frames', 'instance_state', 'instance_state'),
                     U('bounded.units', 'interp', 'B-INTERP')],
         ["the delimiter search of Interpolator.__call__ (regex + validity loop): bounded stand-in B-INTERP only",
          "CDATA context (attribute and comment contexts: S-Interp-percent, S-Comment-*)", "entity decoding of the expression text"]),
@@ -92,7 +92,10 @@ PROPS = {
         "attribute's own quote character and static text as default, to drop the attribute for None, "
         "and the escape routine itself (K2) maps `default` to the static text as written.",
         [K("k3::S-Attribute"), K("k3::S-Attribute-dict")] + K2Q +
-        [U('bounded.units', 'attrs', 'B-ATTR'), U('bounded.units', 'split', 'B-SPLIT')],
+        [U('bounded.units', 'attrs', 'B-ATTR'), U('bounded.units', 'split', 'B-SPLIT'),
+         # boolean / implicit attribute options decide how attributes render: a compiled module must
+         # never be shared between two settings of them
+         U('pyvc.frames', 'digest_injective', 'digest.distinguishes_options')],
         ["tal.prepare_attributes: only the bounded stand-in B-ATTR (not counted as proved)",
          "boolean attributes (dict-valued entries: S-Attribute-dict decides evaluation count only)"]),
     "C09": k3prop(
@@ -121,7 +124,7 @@ PROPS = {
         TAL_BASIC + S_TALES + S_INTERP + [K("k3::S-OnError-keep"), K("k3::S-I18nTarget"),
                                             K("k3::S-UseExternal"), K("k3::S-MacroUseInternal"),
                                             K("k3::S-MacroUseInternal-after-expr"),
-                                            K("template.py::BaseTemplate.render"),
+                                            K("template.py::BaseTemplate.render"), K("tal.py::RepeatDict.__call__"),
                                             U('pyvc.frames', 'render_write_frame', 'render.write_frame')],
         ["create_formatted_exception itself (dynamic class creation; outside the subset)",
          "ExceptionFormatter record order (only: formatting stores nothing on the formatter)"]),
@@ -183,6 +186,7 @@ PROPS = {
                       "crash, not power loss. Interleavings of two writers follow from the same trace "
                       "facts plus rename atomicity (argument, not machine-checked).",
         "units": [U('pyvc.frames', 'digest_reads_frame', 'digest.reads_frame'),
+                  U('pyvc.frames', 'digest_injective', 'digest.distinguishes_options'),
                   U('pyvc.frames', 'render_write_frame', 'render.write_frame'),
                   K("loader.py::ModuleLoader.build")],
         "not_decided": ["ModuleLoader.get/_load and _get_module_name",
@@ -242,7 +246,8 @@ PROPS = {
         "Text-mode templates: the emitted code is proved to copy the source text ('<', '&', tags "
         "included) with each ${expr} replaced by the unescaped string form and $$ by $, also when the "
         "text starts with markup characters.",
-        [K("k3::S-TextMode"), K("k3::S-TextMode-lt"), K("k3::S-TextMode-endtag"),
+        [K("k3::S-TextMode"), K("k3::S-TextMode-lt"), K("k3::S-TextMode-endtag"), K("k3::S-Interp-percent"),
+         K("zpt/loader.py::TemplateLoader.load"), K("loader.py::cache.load"),
          U('bounded.units', 'interp', 'B-INTERP')],
         ["delimiter search of Interpolator.__call__: bounded stand-in B-INTERP only",
          "PageTextTemplateFile.render encoding"]),
@@ -254,7 +259,7 @@ PROPS = {
         "level_note": K3_NOTE + " Attribute-order independence is decided by complete enumeration over "
                       "programs (every subset of the statements on one element x permutations: identical "
                       "emitted code); the combined semantics by the schema with all statements on one element.",
-        "units": TAL_BASIC + S_MORE + [FRESH, U('pyvc.permute', 'unit', 'permute')],
+        "units": TAL_BASIC + S_MORE + [FRESH, U('pyvc.permute', 'unit', 'permute')] + K2Q,
         "not_decided": ["nesting depth > 1 is covered through HoleC induction and FRESH pairs, not enumerated",
                         "tal:replace / tal:switch in the combined schema (single-statement schemas only)"],
         "assumptions": K3_ASSUME,
@@ -312,7 +317,8 @@ PROPS = {
                       "position (unbounded: beyond 26 and 3999).",
         "level_note": "Trusted: list_iterator.__length_hint__ axiom, str/int builtin models "
                       "(conformance-tested). " + K3_NOTE,
-        "units": REPEAT + [K("k3::S-Repeat"), K("k3::S-Repeat-indent"), FRESH],
+        "units": REPEAT + [K("k3::S-Repeat"), K("k3::S-Repeat-indent"), FRESH,
+                           U('pyvc.frames', 'render_write_frame', 'render.write_frame')],
         "not_decided": [
                         "roman()/lower() case mapping", "whitespace computed by visit_element"],
         "assumptions": COMMON_ASSUMPTIONS,
